@@ -124,6 +124,14 @@ def check_to_pyzx(ctx, to):
     by = {}
     for t, body in arms:
         k = "else" if t is None else ast.unparse(t)
+        # an arm is recognised by what it does; its test must then be the class test of that kind of box
+        src_b = " ".join(ast.unparse(x) for x in body)
+        kind = "Spider" if "graph.add_vertex" in src_b else "Swap" if "scan[%s + 1]" % offv in src_b and "graph" not in src_b else "Scalar" if "graph.scalar" in src_b else None
+        if t is not None and kind is not None:
+            want_t = "isinstance(%s, %s)" % (boxv, kind)
+            ctx.ob("R17.2", ZX + ".Diagram.to_pyzx:%s-test" % kind.lower(), k == want_t, found=k, required="%s: the %s arm is taken for %s boxes and only for them (a spider without legs is not a scalar)" % (want_t, kind.lower(), kind),
+                   mod=ZX, node=t, sig="arm-test-" + kind)
+            k = want_t
         if t is not None and isinstance(t, ast.Compare) and len(t.ops) == 1 and {ast.unparse(t.left), ast.unparse(t.comparators[0])} == {boxv, "H"}:
             ctx.ob("R17.2", ZX + ".Diagram.to_pyzx:hadamard-test", isinstance(t.ops[0], ast.Eq), found=k, required="Hadamard boxes are recognised by equality (`box == H`): every Had() instance is one, not only the module's H",
                    mod=ZX, node=t, sig="hadamard-test")
@@ -333,6 +341,14 @@ def check_import(ctx, fr):
     nodev = loop.target.id
     ok = shape.key(loop.iter) == shape.key(shape.parse("[v for v in graph.vertices() if v not in graph.inputs + graph.outputs]"))
     ctx.ob("R17.6", ZX + ".Diagram.from_pyzx:inner-vertices", ok, found=ast.unparse(loop.iter), required="every vertex that is not a declared boundary, in vertex order", mod=ZX, node=loop, sig="inner-vertices")
+    inplace = [ast.unparse(x)[:70] for x in ast.walk(fr) if isinstance(x, (ast.Assign, ast.AugAssign, ast.Delete)) and
+               any(isinstance(t, ast.Subscript) and ast.unparse(t.value) == "scan" for t in (x.targets if not isinstance(x, ast.AugAssign) else [x.target]))] + \
+        [ast.unparse(c)[:70] for c in ast.walk(fr) if isinstance(c, ast.Call) and isinstance(c.func, ast.Attribute) and ast.unparse(c.func.value) == "scan"
+         and c.func.attr in ("insert", "pop", "append", "remove", "extend", "sort", "reverse", "clear")]
+    ctx.ob("R17.6", ZX + ".Diagram.from_pyzx:row-not-aliased", not inplace, found=inplace or "the row is only re-bound to new lists", required="`scan` starts as graph.inputs itself: it is never changed in place "
+           "(the graph handed in must stay usable)", mod=ZX, node=loop, sig="scan-inplace", trivial=True)
+    if inplace:
+        return
     body = {ast.unparse(s.targets[0]): s for s in loop.body if isinstance(s, ast.Assign)}
     ctx.need({"inputs", "outputs", "hadamards", "box", "diagram", "scan"} <= set(body), "from_pyzx: the vertex loop does not bind inputs / outputs / hadamards / box / diagram / scan")
     shape.match(ctx, "R17.6", ZX + ".Diagram.from_pyzx:inputs", body["inputs"].value, "[v for v in graph.neighbors(node) if v < node and v not in graph.outputs or v in graph.inputs]", {nodev: "node"}, mod=ZX, node=body["inputs"],
@@ -400,10 +416,10 @@ def check(ctx):
     ctx.rule("R17.8", "the swaps from_pyzx routes wires with are the requested permutations (C10, including the zx override of Diagram.swap)")
     ctx.depend("R17.8", "C10", "from_pyzx moves wires with Diagram.swap(k, 1) / swap(1, k): the block of k wires and the single wire are exchanged as requested", mod="discopy.quantum.zx")
     ctx.floor("R17.1", 12)
-    ctx.floor("R17.2", 8)
+    ctx.floor("R17.2", 11)
     ctx.floor("R17.3", 4)
     ctx.floor("R17.4", 4)
     ctx.floor("R17.5", 5)
-    ctx.floor("R17.6", 8)
+    ctx.floor("R17.6", 9)
     ctx.floor("R17.7", 3)
     ctx.not_decided += ["pyzx's tensor semantics (the reference of the property)", "graphs with parallel edges", "the scalar on import"]
